@@ -1,9 +1,12 @@
 #!/bin/sh
 # usage: try_seed.sh <property> <patch.diff> [extra vcheck args]
-# applies a seeded change to /repo, runs the quick check, and undoes the change.
+# applies a seeded change to a PRIVATE COPY of /repo, runs the check on it, removes the copy.
 id=$1; patch=$2; shift 2
-git -C /repo apply "$patch" || exit 3
-/verif/bin/vcheck "$@" $id > /tmp/try_seed.out 2>&1; rc=$?
-git -C /repo checkout -- . 
-head -c 1500 /tmp/try_seed.out | cut -c1-220 | head -8
+d=$(mktemp -d /tmp/repo_seed.XXXXXX)
+cp -r /repo/. $d/
+git -C $d apply "$patch" || { rm -rf $d; exit 3; }
+/verif/bin/vcheck -repo $d "$@" $id > $d.out 2>&1; rc=$?
+rm -rf $d
+head -c 2500 $d.out | cut -c1-220 | head -8
+rm -f $d.out
 echo "exit=$rc"
